@@ -83,6 +83,7 @@ func (t *c17RpTee) Read(b []byte) (int, error) {
 type c17RpHook struct {
 	calls   int
 	addr    string
+	left    string // the address the hook left in *reqAddr when it returned
 	putback []byte
 }
 
@@ -113,6 +114,7 @@ func (h *c17RpHook) TCP(stream HyStream, reqAddr *string) ([]byte, error) {
 		}
 	}
 	h.putback = append([]byte(nil), tr.buf...)
+	h.left = *reqAddr
 	return tr.buf, nil
 }
 
@@ -239,6 +241,16 @@ func c17RpRun(c *c17RpCase) (clause string, putback int) {
 			if ev.Kind == "tcp" {
 				dialled = append(dialled, ev.A)
 			}
+		}
+		// what the server must dial is what THIS hook left behind: a header block above the hook's own
+		// 256 KiB limit is not parsed and leaves the requested address (the first thorough run of this
+		// unit expected the sniffed name there too and alarmed on the unchanged tree: harness error)
+		if hook.calls == 1 {
+			if c.Kind == "http" && c.Size <= c17RpMaxHTTPHeader && hook.left != wantAddr {
+				e.Fail("harness: the hook did not rewrite the address of a %d-byte HTTP first flight (left %q)", c.Size, hook.left)
+				return
+			}
+			wantAddr = hook.left
 		}
 		var got []byte
 		if re := r.RelayEnds[wantAddr]; re != nil {
